@@ -226,50 +226,66 @@ def liftE {α : Type} : Except Err α → Rd α
   | .ok a => .ret a
   | .error e => .fail e
 
+/-- encrypt-then-MAC path, after the first `read_all(block_size)` -/
+def readEtm {p : Prims} (r : Receiver p) (st : p.CSt) (mk : p.MKey) (header : Bytes) : Rd (RecvOut p) :=
+  if header.length < 4 then .fail .structError else
+  let psize := beVal (header.take 4)
+  .read (remainingEtm psize r.block) fun more =>
+  let packet := header.drop 4 ++ more
+  .read r.macLen fun mac =>
+  if ctEq ((p.mac mk (be32 r.seq ++ be32 psize ++ packet)).take r.macLen) mac then
+    let d := p.dec st packet
+    liftE (finish r (.etm d.1 mk) psize d.2 (some ⟨r.seq, [], be32 psize ++ packet⟩))
+  else .fail .macMismatch
+
+/-- AES-GCM path -/
+def readAead {p : Prims} (r : Receiver p) (k : p.AKey) (iv : Bytes) (header : Bytes) : Rd (RecvOut p) :=
+  if header.length < 4 then .fail .structError else
+  let psize := beVal (header.take 4)
+  .read (remainingAead psize r.block r.macLen) fun more =>
+  let packet := header.drop 4 ++ more
+  match p.adec k iv packet (header.take 4) with
+  | none => .fail .invalidTag
+  | some plain =>
+    match incIv iv with
+    | .error e => .fail e
+    | .ok iv' => liftE (finish r (.aead k iv') psize plain (some ⟨r.seq, iv, header.take 4 ++ packet⟩))
+
+/-- no cipher (before the first NEWKEYS) -/
+def readPlain {p : Prims} (r : Receiver p) (header : Bytes) : Rd (RecvOut p) :=
+  if header.length < 4 then .fail .structError else
+  let psize := beVal (header.take 4)
+  let leftover := header.drop 4
+  if badBlocking psize leftover.length r.block then .fail .badBlocking else
+  .read (classicSize psize r.macLen leftover.length) fun buf =>
+  let packet := leftover ++ buf.take (psize - leftover.length)
+  liftE (finish r .plain psize packet none)
+
+/-- classic path (MAC over the plaintext) -/
+def readClassic {p : Prims} (r : Receiver p) (st : p.CSt) (mk : p.MKey) (header : Bytes) : Rd (RecvOut p) :=
+  let d0 := p.dec st header
+  if d0.2.length < 4 then .fail .structError else
+  let psize := beVal (d0.2.take 4)
+  let leftover := d0.2.drop 4
+  if badBlocking psize leftover.length r.block then .fail .badBlocking else
+  .read (classicSize psize r.macLen leftover.length) fun buf =>
+  let d1 := p.dec d0.1 (buf.take (psize - leftover.length))
+  let post := buf.drop (psize - leftover.length)
+  let packet := leftover ++ d1.2
+  if r.macLen > 0 then
+    if ctEq ((p.mac mk (be32 r.seq ++ be32 psize ++ packet)).take r.macLen) (post.take r.macLen) then
+      liftE (finish r (.classic d1.1 mk) psize packet (some ⟨r.seq, [], be32 psize ++ packet⟩))
+    else .fail .macMismatch
+  else liftE (finish r (.classic d1.1 mk) psize packet none)
+
 /-- `read_message()` -/
 def readMessage {p : Prims} (r : Receiver p) : Rd (RecvOut p) :=
   .read r.block fun header =>
-  if header.length < 4 then .fail .structError else
-  let psize := beVal (header.take 4)
   match r.ciph with
-  | .etm st mk =>
-    .read (remainingEtm psize r.block) fun more =>
-    let packet := header.drop 4 ++ more
-    .read r.macLen fun mac =>
-    if ctEq ((p.mac mk (be32 r.seq ++ be32 psize ++ packet)).take r.macLen) mac then
-      let d := p.dec st packet
-      liftE (finish r (.etm d.1 mk) psize d.2 (some ⟨r.seq, [], be32 psize ++ packet⟩))
-    else .fail .macMismatch
-  | .aead k iv =>
-    .read (remainingAead psize r.block r.macLen) fun more =>
-    let packet := header.drop 4 ++ more
-    match p.adec k iv packet (header.take 4) with
-    | none => .fail .invalidTag
-    | some plain =>
-      match incIv iv with
-      | .error e => .fail e
-      | .ok iv' => liftE (finish r (.aead k iv') psize plain (some ⟨r.seq, iv, header.take 4 ++ packet⟩))
-  | .plain =>
-    let leftover := header.drop 4
-    if badBlocking psize leftover.length r.block then .fail .badBlocking else
-    .read (classicSize psize r.macLen leftover.length) fun buf =>
-    let packet := leftover ++ buf.take (psize - leftover.length)
-    liftE (finish r .plain psize packet none)
-  | .classic st mk =>
-    let d0 := p.dec st header
-    if d0.2.length < 4 then .fail .structError else
-    let psize := beVal (d0.2.take 4)
-    let leftover := d0.2.drop 4
-    if badBlocking psize leftover.length r.block then .fail .badBlocking else
-    .read (classicSize psize r.macLen leftover.length) fun buf =>
-    let d1 := p.dec d0.1 (buf.take (psize - leftover.length))
-    let post := buf.drop (psize - leftover.length)
-    let packet := leftover ++ d1.2
-    if r.macLen > 0 then
-      if ctEq ((p.mac mk (be32 r.seq ++ be32 psize ++ packet)).take r.macLen) (post.take r.macLen) then
-        liftE (finish r (.classic d1.1 mk) psize packet (some ⟨r.seq, [], be32 psize ++ packet⟩))
-      else .fail .macMismatch
-    else liftE (finish r (.classic d1.1 mk) psize packet none)
+  | .etm st mk => readEtm r st mk header
+  | .aead k iv => readAead r k iv header
+  | .plain => readPlain r header
+  | .classic st mk => readClassic r st mk header
 
 /-! ## `read_all` over a socket -/
 
